@@ -78,6 +78,65 @@ def commit_closure(repo, cls_q):
     return out
 
 
+def handouts_are_versioned(ctx, rule):
+    """C02.R2 (shared with C01: a consumer takes over a reported state only when its StateVersion is higher than the one it has -
+    a commit that does not count the version up is sent, and ignored by every mirror)."""
+    repo = ctx.repo
+    n_ti = 0
+    for fi in repo.funcs.values():
+        if fi.module.name != TR:
+            continue
+        g = cfg_of(fi)
+        assigns = local_assignments(fi.node)
+        for n, c in g.nodes_calling('TransactionItem'):
+            args = {}
+            for i, a in enumerate(c.args):
+                args[('old', 'new')[i]] = a
+            for kw in c.keywords:
+                args[kw.arg] = kw.value
+            old, new = args.get('old'), args.get('new')
+            if old is None or new is None:
+                raise AnalysisError(f'{rule}: cannot read TransactionItem arguments in {fi.qual}')
+            if isinstance(new, ast.Constant) and new.value is None:
+                continue  # deletion: nothing to version
+            if not isinstance(new, ast.Name):
+                # `item = TransactionItem(old, old.mk_copy())` ... `new_state = item.new`: the local that names the new object
+                holder = n.stmt.targets[0].id if (n.kind == 'stmt' and isinstance(n.stmt, ast.Assign) and
+                                                  isinstance(n.stmt.targets[0], ast.Name)) else None
+                names = sorted({nm for nm, vals in assigns.items() if holder and any(
+                    isinstance(v, ast.Attribute) and v.attr == 'new' and isinstance(v.value, ast.Name) and v.value.id == holder
+                    for v in vals)})
+                if len(names) != 1:
+                    raise AnalysisError(f'{rule}: new argument {unparse(new)} in {fi.qual} is not a local name')
+                new = ast.Name(id=names[0], ctx=ast.Load())
+            n_ti += 1
+            old_is_none = isinstance(old, ast.Constant) and old.value is None
+            incs = _increment_nodes(g, new.id, fi, assigns)
+            caller_owned = new.id in [a.arg for a in fi.node.args.args]
+            # avoid set: increment nodes, False branch of an adjust flag, branches where old is known None
+            avoid = list(incs)
+            for b in g.nodes:
+                if b.kind == 'branch' and b.label in (True, False):
+                    facts = []
+                    from engine.cfg import _atoms
+                    _atoms(b.test, b.label, facts)
+                    for txt, pol in facts:
+                        if 'adjust' in txt and pol is False and '.' not in txt:
+                            avoid.append(b)
+            entry_to_t = g.path_exists(g.entry, n, avoid=avoid)
+            t_to_exit = (g.exit.id, 0) in g._pp_reach([(n, 1)], avoid=avoid, normal_only=True)  # noqa: SLF001
+            ok = not (entry_to_t and t_to_exit)
+            kind = 'set_version (re-created object continues its counter)' if old_is_none else 'old + 1'
+            ctx.ob(rule, f'TransactionItem({unparse(old)}, {new.id})', ok,
+                   f'{new.id}: version is adjusted ({kind}) on every path through this hand-out unless the adjust '
+                   f'flag is off' if ok else
+                   f'{new.id}: a path reaches this TransactionItem and the exit without any version adjustment of '
+                   f'{new.id} although the adjust flag is on',
+                   fi=fi, node=c, witness={'increments': [i.text()[:70] for i in incs],
+                                           'caller_owned_new': caller_owned})
+    ctx.floor(rule, n_ti, 12, 'TransactionItem(old,new) constructions with a new object')
+
+
 def run(ctx):  # noqa: C901, PLR0912, PLR0915
     repo = ctx.repo
     ctx.rule('C02.R1', 'MdibVersion +1 once, only on a non-empty commit, never on abort, single set of writers')
@@ -203,59 +262,7 @@ def run(ctx):  # noqa: C901, PLR0912, PLR0915
            node=pts[0][1])
 
     # ------------------------------------------------------------ R2 hand-out implies increment
-    n_ti = 0
-    for fi in repo.funcs.values():
-        if fi.module.name != TR:
-            continue
-        g = cfg_of(fi)
-        assigns = local_assignments(fi.node)
-        for n, c in g.nodes_calling('TransactionItem'):
-            args = {}
-            for i, a in enumerate(c.args):
-                args[('old', 'new')[i]] = a
-            for kw in c.keywords:
-                args[kw.arg] = kw.value
-            old, new = args.get('old'), args.get('new')
-            if old is None or new is None:
-                raise AnalysisError(f'C02.R2: cannot read TransactionItem arguments in {fi.qual}')
-            if isinstance(new, ast.Constant) and new.value is None:
-                continue  # deletion: nothing to version
-            if not isinstance(new, ast.Name):
-                # `item = TransactionItem(old, old.mk_copy())` ... `new_state = item.new`: the local that names the new object
-                holder = n.stmt.targets[0].id if (n.kind == 'stmt' and isinstance(n.stmt, ast.Assign) and
-                                                  isinstance(n.stmt.targets[0], ast.Name)) else None
-                names = sorted({nm for nm, vals in assigns.items() if holder and any(
-                    isinstance(v, ast.Attribute) and v.attr == 'new' and isinstance(v.value, ast.Name) and v.value.id == holder
-                    for v in vals)})
-                if len(names) != 1:
-                    raise AnalysisError(f'C02.R2: new argument {unparse(new)} in {fi.qual} is not a local name')
-                new = ast.Name(id=names[0], ctx=ast.Load())
-            n_ti += 1
-            old_is_none = isinstance(old, ast.Constant) and old.value is None
-            incs = _increment_nodes(g, new.id, fi, assigns)
-            caller_owned = new.id in [a.arg for a in fi.node.args.args]
-            # avoid set: increment nodes, False branch of an adjust flag, branches where old is known None
-            avoid = list(incs)
-            for b in g.nodes:
-                if b.kind == 'branch' and b.label in (True, False):
-                    facts = []
-                    from engine.cfg import _atoms
-                    _atoms(b.test, b.label, facts)
-                    for txt, pol in facts:
-                        if 'adjust' in txt and pol is False and '.' not in txt:
-                            avoid.append(b)
-            entry_to_t = g.path_exists(g.entry, n, avoid=avoid)
-            t_to_exit = (g.exit.id, 0) in g._pp_reach([(n, 1)], avoid=avoid, normal_only=True)  # noqa: SLF001
-            ok = not (entry_to_t and t_to_exit)
-            kind = 'set_version (re-created object continues its counter)' if old_is_none else 'old + 1'
-            ctx.ob('C02.R2', f'TransactionItem({unparse(old)}, {new.id})', ok,
-                   f'{new.id}: version is adjusted ({kind}) on every path through this hand-out unless the adjust '
-                   f'flag is off' if ok else
-                   f'{new.id}: a path reaches this TransactionItem and the exit without any version adjustment of '
-                   f'{new.id} although the adjust flag is on',
-                   fi=fi, node=c, witness={'increments': [i.text()[:70] for i in incs],
-                                           'caller_owned_new': caller_owned})
-    ctx.floor('C02.R2', n_ti, 12, 'TransactionItem(old,new) constructions with a new object')
+    handouts_are_versioned(ctx, 'C02.R2')
 
     # ------------------------------------------------------------ R3 versions survive delete
     subs = [q for q in repo.subclasses(VL)]
